@@ -5,6 +5,8 @@
    Theorem: whenever an assignment returns normally, every bound property equals its expression over the current values - for every
    network of trees, every placement of such observers, every delivery order (the pending-set invariant of PropAbsProofs.v is general
    enough: a nested assignment starts from "consistent up to the pending leaves" and hands back the same).
+   An emission carries its payload (the value that was stored) to every subscriber; the observer writes that payload.  The executable model
+   refines this layer (coq/PropSimAct.v).
    Not covered here: observers of valueAboutToChange that write (they run before the new value is stored; a cycle through one of them is not
    detected by the library - DESIGN.md 7, observations), observers that reset() bindings. *)
 From Coq Require Import List Arith ZArith Lia Bool.
@@ -25,37 +27,39 @@ Variable order' : nat -> list sub.          (* subscribers of p.valueChanged in 
 Definition lorder (p : nat) : list (nat * nat) := leafsubs (order' p).
 
 Section Step.
-  Variable notify_rec : state -> nat -> state.
+  (* an emission carries its payload - the value that was stored - to every subscriber *)
+  Variable notify_rec : state -> nat -> Z -> state.
+  Definition nrec2 (s : state) (q : nat) : state := notify_rec s q (env s q).   (* a binding emits the value it has just stored *)
 
-  (* the observer's slot: tgt.set(value of p).  A bound target rejects the write (ReadOnlyProperty leaves the emission: the assignment
+  (* the observer's slot: tgt.set(v0).  A bound target rejects the write (ReadOnlyProperty leaves the emission: the assignment
      does not return normally); an equal value changes nothing; otherwise store and serve tgt's subscribers *)
-  Definition act (s : state) (p tgt : nat) : state :=
+  Definition act (s : state) (v0 : Z) (tgt : nat) : state :=
     if oof s then s else
     match tr s tgt with
     | Some _ => {| env := env s; tr := tr s; oof := true |}
     | None =>
-        if Z.eqb (env s p) (env s tgt) then s
-        else notify_rec {| env := set_env (env s) tgt (env s p); tr := tr s; oof := false |} tgt
+        if Z.eqb v0 (env s tgt) then s
+        else notify_rec {| env := set_env (env s) tgt v0; tr := tr s; oof := false |} tgt v0
     end.
 
-  Definition deliver' (p : nat) (s : state) (x : sub) : state :=
+  Definition deliver' (v0 : Z) (s : state) (x : sub) : state :=
     match x with
-    | SLeaf q lid => PropAbs.deliver F1 F2 F3 notify_rec s (q, lid)
-    | SAct tgt => act s p tgt
+    | SLeaf q lid => PropAbs.deliver F1 F2 F3 nrec2 s (q, lid)
+    | SAct tgt => act s v0 tgt
     end.
 
-  Definition notify_body' (s : state) (p : nat) : state := fold_left (deliver' p) (order' p) s.
+  Definition notify_body' (s : state) (p : nat) (v0 : Z) : state := fold_left (deliver' v0) (order' p) s.
 End Step.
 
-Fixpoint notify' (fuel : nat) (s : state) (p : nat) : state :=
+Fixpoint notify' (fuel : nat) (s : state) (p : nat) (v0 : Z) : state :=
   match fuel with
   | O => {| env := env s; tr := tr s; oof := true |}
-  | S f => notify_body' (notify' f) s p
+  | S f => notify_body' (notify' f) s p v0
   end.
 
 Definition set' (fuel : nat) (s : state) (p : nat) (v : Z) : state :=
   if Z.eqb v (env s p) then s
-  else notify' fuel {| env := set_env (env s) p v; tr := tr s; oof := oof s |} p.
+  else notify' fuel {| env := set_env (env s) p v; tr := tr s; oof := oof s |} p v.
 
 Definition sets' (fuel : nat) (s : state) (ws : list (nat * Z)) : state :=
   fold_left (fun s pv => set' fuel s (fst pv) (snd pv)) ws s.
@@ -63,22 +67,28 @@ Definition sets' (fuel : nat) (s : state) (ws : list (nat * Z)) : state :=
 (* ---------------------------------------------------------------------------------------------------------------------------- *)
 Notation Inv := (Inv F1 F2 F3 lorder).
 Notation rec_ok := (rec_ok F1 F2 F3 lorder).
+(* the contract of the recursive knot, for every payload *)
+Definition rec_ok3 (R : state -> nat -> Z -> state) : Prop :=
+  (forall s r v, oof s = true -> oof (R s r v) = true) /\
+  (forall s r v P, Inv s (lorder r ++ P) -> oof (R s r v) = false -> Inv (R s r v) P).
 
 Section StepProofs.
-  Variable R : state -> nat -> state.
-  Hypothesis HR : rec_ok R.
+  Variable R : state -> nat -> Z -> state.
+  Hypothesis HR3 : rec_ok3 R.
+  Lemma HR : rec_ok (nrec2 R).
+  Proof. split; [intros s r H; apply (proj1 HR3); exact H|intros s r P HI Ho; apply (proj2 HR3); assumption]. Qed.
 
   Lemma act_oof s p tgt : oof s = true -> act R s p tgt = s.
   Proof. intros H; unfold act; rewrite H; reflexivity. Qed.
 
-  (* a nested assignment keeps "consistent up to the pending leaves P", whatever P is *)
-  Lemma act_ok s p tgt P : Inv s P -> oof (act R s p tgt) = false -> Inv (act R s p tgt) P.
+  (* a nested assignment keeps "consistent up to the pending leaves P", whatever P is and whatever value is written *)
+  Lemma act_ok s v0 tgt P : Inv s P -> oof (act R s v0 tgt) = false -> Inv (act R s v0 tgt) P.
   Proof.
     intros HI. unfold act. destruct (oof s) eqn:Ho; [congruence|].
     destruct (tr s tgt) as [t|] eqn:Ht; [cbn; congruence|].
-    destruct (Z.eqb (env s p) (env s tgt)); [intros _; exact HI|].
-    intros Hf. apply (proj2 HR); [|exact Hf].
-    apply (Inv_env_change F1 F2 F3 lorder s P tgt (env s p)).
+    destruct (Z.eqb v0 (env s tgt)); [intros _; exact HI|].
+    intros Hf. apply (proj2 HR3); [|exact Hf].
+    apply (Inv_env_change F1 F2 F3 lorder s P tgt v0).
     - intros q t Hq. destruct (HI q t Hq) as (A & B & C & D). repeat split; auto.
     - intros t Hq; congruence.
   Qed.
@@ -96,22 +106,22 @@ Section StepProofs.
     assert (Hd : oof (deliver' R p s x) = false).
     { destruct (oof (deliver' R p s x)) eqn:Hd; [|reflexivity]. rewrite loop'_oof in Ho by exact Hd. congruence. }
     apply IH; [|exact Ho]. destruct x as [q lid|tgt]; cbn [deliver'] in *.
-    - apply (deliver_ok F1 F2 F3 lorder R HR); [exact HI|exact Hd].
+    - apply (deliver_ok F1 F2 F3 lorder (nrec2 R) HR); [exact HI|exact Hd].
     - apply act_ok; [exact HI|exact Hd].
   Qed.
 
-  Lemma body'_ok : rec_ok (notify_body' R).
+  Lemma body'_ok : rec_ok3 (notify_body' R).
   Proof.
     split.
-    - intros s r H. unfold notify_body'. rewrite loop'_oof by exact H. exact H.
-    - intros s r P HI Ho. unfold notify_body' in *. apply loop'_ok; assumption.
+    - intros s r v H. unfold notify_body'. rewrite loop'_oof by exact H. exact H.
+    - intros s r v P HI Ho. unfold notify_body' in *. apply loop'_ok; assumption.
   Qed.
 End StepProofs.
 
-Lemma notify'_ok fuel : rec_ok (notify' fuel).
+Lemma notify'_ok fuel : rec_ok3 (notify' fuel).
 Proof.
   induction fuel as [|f IH]; cbn [notify'].
-  - split; [intros; reflexivity|intros s r P _ H; cbn in H; discriminate].
+  - split; [intros; reflexivity|intros s r v P _ H; cbn in H; discriminate].
   - apply body'_ok; exact IH.
 Qed.
 
@@ -128,21 +138,21 @@ Qed.
 (* which properties are bound never changes *)
 Lemma set'_tr fuel s p v : forall q, tr (set' fuel s p v) q = None <-> tr s q = None.
 Proof.
-  assert (Hdel : forall R, (forall s r q, tr (R s r) q = None <-> tr s q = None) ->
-                 forall p0 l s q, tr (fold_left (deliver' R p0) l s) q = None <-> tr s q = None).
-  { intros R HR p0 l. induction l as [|x l IH]; intros s0 q; cbn [fold_left]; [tauto|].
+  assert (Hdel : forall R : state -> nat -> Z -> state, (forall s r v0 q, tr (R s r v0) q = None <-> tr s q = None) ->
+                 forall v0 l s q, tr (fold_left (deliver' R v0) l s) q = None <-> tr s q = None).
+  { intros R HR v0 l. induction l as [|x l IH]; intros s0 q; cbn [fold_left]; [tauto|].
     rewrite IH. destruct x as [q0 lid|tgt]; cbn [deliver'].
     - unfold deliver. destruct (oof s0); [tauto|].
       destruct (tr s0 q0) as [t|] eqn:Ht; [|tauto].
       destruct (mark t lid) as [t1 up]. destruct up.
-      + destruct (PropAbs.eval F1 F2 F3 (env s0) t1) as [t2 v0].
-        destruct (Z.eqb v0 (env s0 q0)); cbn [tr]; [|rewrite HR; cbn [tr]];
+      + destruct (PropAbs.eval F1 F2 F3 (env s0) t1) as [t2 v1].
+        destruct (Z.eqb v1 (env s0 q0)); cbn [tr]; [|unfold nrec2; rewrite HR; cbn [tr]];
           unfold PropAbs.set_tr; destruct (Nat.eqb_spec q q0) as [->|]; try tauto; rewrite Ht; split; discriminate.
       + cbn [tr]. unfold PropAbs.set_tr. destruct (Nat.eqb_spec q q0) as [->|]; try tauto. rewrite Ht; split; discriminate.
     - unfold act. destruct (oof s0); [tauto|]. destruct (tr s0 tgt); [cbn [tr]; tauto|].
-      destruct (Z.eqb (env s0 p0) (env s0 tgt)); [tauto|]. rewrite HR; cbn [tr]; tauto. }
-  assert (Hn : forall fuel s r q, tr (notify' fuel s r) q = None <-> tr s q = None).
-  { induction fuel0 as [|f IH]; intros s0 r q; cbn [notify']; [cbn; tauto|].
+      destruct (Z.eqb v0 (env s0 tgt)); [tauto|]. rewrite HR; cbn [tr]; tauto. }
+  assert (Hn : forall fuel s r v0 q, tr (notify' fuel s r v0) q = None <-> tr s q = None).
+  { induction fuel0 as [|f IH]; intros s0 r v0 q; cbn [notify']; [cbn; tauto|].
     unfold notify_body'. apply Hdel. exact IH. }
   intros q. unfold set'. destruct (Z.eqb v (env s p)); [tauto|]. rewrite Hn. cbn [tr]. tauto.
 Qed.
